@@ -11,11 +11,23 @@ Ch(s, k) == SubSeq(s, k, k)
 Tl(s) == SubSeq(s, 2, Len(s))
 HasChar(s, c) == \E k \in 1..Len(s) : Ch(s, k) = c
 
-\* glob matching with "*" (any run of characters); the documented forms
+\* glob matching: "*" (any run of characters) is the documented form; the implementation
+\* hands the pattern to SQLite's GLOB, so "?" (any one character) and "[abc]" / "[^abc]"
+\* (one character of / not of the set; ranges are not modelled) work as well
+HasClose(p) == \E k \in 3..Len(p) : Ch(p, k) = "]"
+CloseAt(p) == CHOOSE k \in 3..Len(p) : Ch(p, k) = "]" /\ \A j \in 3..(k - 1) : Ch(p, j) # "]"
 RECURSIVE Glob(_, _)
 Glob(p, s) ==
   IF Len(p) = 0 THEN Len(s) = 0
   ELSE IF Ch(p, 1) = "*" THEN Glob(Tl(p), s) \/ (Len(s) > 0 /\ Glob(p, Tl(s)))
+  ELSE IF Ch(p, 1) = "?" THEN Len(s) > 0 /\ Glob(Tl(p), Tl(s))
+  ELSE IF Ch(p, 1) = "[" /\ HasClose(p)
+       THEN LET k == CloseAt(p)
+                cls == SubSeq(p, 2, k - 1)
+                neg == Ch(cls, 1) = "^"
+                body == IF neg THEN Tl(cls) ELSE cls IN
+              /\ Len(s) > 0 /\ (HasChar(body, Ch(s, 1)) # neg)
+              /\ Glob(SubSeq(p, k + 1, Len(p)), Tl(s))
   ELSE Len(s) > 0 /\ Ch(s, 1) = Ch(p, 1) /\ Glob(Tl(p), Tl(s))
 
 \* an independent definition used to cross-check Glob on the bounded model:
@@ -57,8 +69,11 @@ Specifiers(arg) == Split(arg, "")
 SpecOf(l) == l.id \o ":" \o l.version
 LangOK(l, lang) == lang = "~" \/ l.lang = lang
 \* indices (positions in the installed sequence) selected by one specifier
+\* a specifier without a star selects a single lexicon, the most recently added one among
+\* those it matches: documented for the bare id; "id:version" matches one lexicon anyway;
+\* for the undocumented "?" / "[...]" patterns this is what the implementation does
 SelOne(db, sp, lang) ==
-  LET bare == ~HasChar(sp, ":") /\ ~HasChar(sp, "*")
+  LET bare == ~HasChar(sp, "*")
       pat == IF HasChar(sp, ":") THEN sp ELSE sp \o ":*"
       hits == {k \in DOMAIN db : Glob(pat, SpecOf(db[k])) /\ LangOK(db[k], lang)} IN
     IF bare /\ hits # {}
